@@ -550,7 +550,14 @@ class Body:
                 es.append(self.expr_of_call(payload, depth - 1, stack + (l,), loc))
         if 0 < l <= self.arg_count:
             es.insert(0, ("param", l, self.locals[l]["name"]))
-        e = es[0] if len(es) == 1 else ("phi", tuple(es))
+        if len(es) == 1:
+            e = es[0]
+        else:
+            # third component: where each alternative is assigned (lets a path-sensitive client pick the one on its path)
+            locs = tuple(loc for loc, kind, payload in ds)
+            if 0 < l <= self.arg_count:
+                locs = (None,) + locs
+            e = ("phi", tuple(es), locs)
         self._expr_cache[key] = e
         return e
 
